@@ -103,6 +103,17 @@ LvAltNull == {Chr(120), Chr(97), StarABorC, AltStarOrD, AltDOrLazy}     \* alter
 CatP(neg, name) == Bare([t |-> "p", neg |-> neg, name |-> name])
 LvCatCase == {CatP(FALSE, "Ll"), CatP(FALSE, "Lu"), CatP(TRUE, "Lu"), Chr(65), Chr(97), Chr(49)}   \* one-case category classes next to letters (flag i)
 QCatCase == {QStar, QPlus, QOpt, QStarL, Q(1, 3, FALSE, "n")}
+NestStar == [k |-> "rep", min |-> 0, max |-> -1, lazy |-> FALSE, q |-> "s",
+             r |-> [k |-> "grp", n |-> 0, r |-> [k |-> "alt", xs |-> <<GrpA, Chr(98)>>]]]                 \* ((a)|b)*
+NestOpt == [k |-> "rep", min |-> 0, max |-> 1, lazy |-> FALSE, q |-> "s",
+            r |-> [k |-> "grp", n |-> 0, r |-> [k |-> "seq", xs |-> <<GrpA, Chr(98)>>]]]                  \* ((a)b)?
+LvNestClear == {NestStar, NestOpt, Chr(99), Bref(2), Bref(1)}     \* nested groups inside a repeat that an outer loop enters again
+QNestClear == {QPlus, QStar, Q(2, 2, FALSE, "n")}
+ShapesNcgSeq == {"ncg", "seq"}
+NcgAOptB == [k |-> "ncg", r |-> [k |-> "seq", xs |-> <<Chr(97), [k |-> "rep", r |-> Chr(98), min |-> 0, max |-> 1, lazy |-> FALSE, q |-> "s"]>>]]   \* (?:ab?)
+NcgOptAB == [k |-> "ncg", r |-> [k |-> "seq", xs |-> <<[k |-> "rep", r |-> Chr(97), min |-> 0, max |-> 1, lazy |-> FALSE, q |-> "s"], Chr(98)>>]]   \* (?:a?b)
+LvSeqInit == {Chr(97), Chr(98), NcgAOptB, NcgOptAB}      \* quantified letters in front of quantified variable-length sequences
+QSeqInit == {QStar, QPlus, QOpt, Q(1, 3, FALSE, "n"), QStarL}
 LvNest == {Chr(97), Chr(98), GrpA, GrpB}                             \* groups under loops under loops
 LvCaseOpt == {Chr(233), Chr(201), Chr(955), Chr(923), Chr(53)}        \* non-ASCII letters next to quantified letters (flag i)
 LvPunct == {Chr(91), Chr(123), Chr(94), Chr(126), Chr(64), Chr(96), Chr(95), Chr(97),
@@ -118,6 +129,7 @@ LvAstral == {Chr(66560), Chr(769), Chr(97), Dot, Cls(FALSE, <<IC(66560), IC(97)>
 LvLoop == {Chr(97), Chr(98), BolL, EolL, Bref(1)}
 FlagsM == {NoFlags, Fl(FALSE, TRUE, FALSE)}
 QOptOnly == {QOpt}
+QPlusOnly == {QPlus}
 LvWs == {Chr(97), Cls(FALSE, <<IC(97), IC(32)>>), Chr(91), Chr(93), Chr(92), Bare(IE("d")),
          Bare([t |-> "p", neg |-> FALSE, name |-> "Lu"]), Cls(TRUE, <<IC(9), IR(97, 98)>>),
          ClsSub(FALSE, <<IR(97, 99), IC(32)>>, Cls(FALSE, <<IC(98)>>))}                  \* [a-c -[b]] : a subtraction
@@ -125,6 +137,8 @@ NcgA == [k |-> "ncg", r |-> Chr(97)]                                            
 GrpOptB == [k |-> "grp", n |-> 0, r |-> [k |-> "rep", r |-> Chr(98), min |-> 0, max |-> 1, lazy |-> FALSE, q |-> "s"]]   \* (b?)
 LvWsNest == {NcgA, GrpOptB, Chr(97)}          \* (?: ...) in front of nested groups that match nothing: what analyze's nesting depends on
 ShapesGrpSeq == {"grp", "seq"}
+LvClsParen == {Cls(TRUE, <<IC(40)>>), Cls(FALSE, <<IC(40), IC(97)>>), Cls(TRUE, <<IC(93)>>), Cls(FALSE, <<IC(91), IC(41)>>),
+               GrpOptB, Chr(97)}                                  \* brackets and parentheses INSIDE classes, in front of groups that match nothing
 LvDial == {Chr(97), BolL, EolL, Chr(36), Chr(94), Bref(1), Dot, Cls(FALSE, <<IC(97), IC(94)>>)}
 LvBrefI == {Chr(97), Chr(65), Chr(98), Bref(1)}
 Grp0(r) == [k |-> "grp", n |-> 0, r |-> r]
